@@ -29,7 +29,8 @@ from typing import Any
 from vf import core
 
 LEVEL = "model_checking"
-KINDS = ["sb21", "sb20", "advp", "sb21cfg", "mbi_class", "mbi_cfg", "otfad", "iee", "bee", "hexstr", "hab"]
+KINDS = ["sb21", "sb20", "advp", "sb21cfg", "mbi_class", "mbi_cfg", "otfad", "iee", "bee", "hexstr", "hab",
+         "sb21cfg_same", "mbi_cfg_same"]  # *_same: one configuration dictionary object reused for every build of that kind
 CHILD = os.path.join(os.path.dirname(os.path.abspath(__file__)), "c17_child.py")
 
 
@@ -142,11 +143,25 @@ def w_history(hist: Any) -> dict:
     return res
 
 
+CORE_KINDS = ["sb21", "sb20", "advp", "mbi_class", "mbi_cfg", "otfad", "iee", "bee", "hexstr"]
+
+
 def histories(tier: str) -> list:
-    n = 2 if tier == "quick" else 3
+    """quick: every single construction, every ordered pair over the nine class-constructed kinds, and for the four
+    config/CLI-driven kinds (slow: 1-4 s each) the pairs with themselves, with their sibling and with three core kinds;
+    thorough: all sequences up to length 2 over all 13 kinds and up to length 3 over all but `hab`."""
+    if tier == "quick":
+        out = [[k] for k in KINDS]
+        out += [list(t) for t in itertools.product(CORE_KINDS, repeat=2)]
+        for k, sib in (("sb21cfg", "sb21cfg_same"), ("sb21cfg_same", "sb21"), ("mbi_cfg_same", "mbi_cfg"), ("hab", "hab")):
+            for o in dict.fromkeys([k, sib, "sb21", "mbi_class", "otfad"]):
+                for h in ([k, o], [o, k]):
+                    if h not in out:
+                        out.append(h)
+        return out
     out = []
-    for ln in range(1, n + 1):
-        pool = KINDS if (ln <= 2) else [k for k in KINDS if k != "hab"]  # hab (CLI, 2 s) only up to length 2
+    for ln in range(1, 4):
+        pool = KINDS if (ln <= 2) else [k for k in KINDS if k != "hab"]  # hab (CLI, 2-4 s) only up to length 2
         out += [list(t) for t in itertools.product(pool, repeat=ln)]
     return out
 
@@ -175,7 +190,7 @@ def run(ctx: core.Ctx) -> None:
     ctx.cov["traces_validated_against_impl"] = len(hs)
     ctx.cov["history_length_bound"] = 2 if ctx.tier == "quick" else 3
     ctx.cov["kinds"] = KINDS
-    ctx.rule = ("all sequences with repetition of artifact constructions (11 kinds: SB2.0, SB2.1 by class and by config, advanced "
+    ctx.rule = ("all sequences with repetition of artifact constructions (13 kinds: SB2.0, SB2.1 by class and by config, advanced "
                 "params, encrypted MBI by class and by config, OTFAD, IEE, BEE blobs, load_hex_string(None), HAB encrypted via "
                 "the CLI) up to the length bound, each in a fresh interpreter under a counting RNG installed before import, run "
                 "under two generator seeds; distinct = distinct histories; every history is an implementation run")
